@@ -177,10 +177,10 @@ func uploadInfo(name string, content []byte, req uint32, demonID string) map[str
 }
 
 type obsA struct {
-	maxQueued                       int
-	cut, escape, edge, notAsked     bool
-	batches, multi, kinds           int
-	prepErr                         bool
+	maxQueued                   int
+	cut, escape, edge, notAsked bool
+	batches, multi, kinds       int
+	prepErr                     bool
 }
 
 var lastA obsA
